@@ -195,6 +195,14 @@ type runnablePipeline struct {
 	// stops for an unrelated reason gets ordinary recovery semantics again, not
 	// a stale "this was user-stopped" marker from a previous run.
 	intentionalStop atomic.Bool
+
+	// forceStopped is set when a force stop was accepted for this run. Killing
+	// the tomb is not enough in two cases: the run is already dead (waiting in
+	// the recovery back-off, or just being replaced by a restart), or it is
+	// already dying with a transient error that keeps the tomb's first reason.
+	// The recovery restart checks the marker, and Start carries a force stop
+	// that arrived while it was building the next run over to that run.
+	forceStopped atomic.Bool
 }
 
 // ConnectorService can fetch and create a connector instance, and report when
@@ -297,6 +305,13 @@ func (s *Service) start(
 		return cerrors.Errorf("can't start pipeline %s: %w", pl.ID, pipeline.ErrPipelineRunning)
 	}
 
+	// Stop resolves the published run and does not wait for a Start in
+	// progress, so from here until the new run is published below a force stop
+	// can only reach the run this Start supersedes (e.g. the dead one a recovery
+	// restart is replacing). Remember whether it had been force stopped already.
+	oldRp, hadOldRp := s.runningPipelines.Get(pipelineID)
+	forceStoppedBefore := hadOldRp && oldRp.forceStopped.Load()
+
 	verifhook.Point("lifecycle.start.checked")
 	s.logger.Debug(ctx).Str(log.PipelineIDField, pl.ID).Msg("starting pipeline")
 	s.logger.Trace(ctx).Str(log.PipelineIDField, pl.ID).Msg("building tasks")
@@ -311,7 +326,7 @@ func (s *Service) start(
 	// runnablePipeline. Without this, every restart resets the attempt counter
 	// and MaxRetries would never bite — an unbounded restart loop. Mirrors
 	// pkg/lifecycle.Service.Start.
-	if oldRp, ok := s.runningPipelines.Get(pipelineID); ok {
+	if hadOldRp {
 		rp.backoff = oldRp.backoff
 		rp.recoveryAttempts = oldRp.recoveryAttempts
 	}
@@ -329,6 +344,14 @@ func (s *Service) start(
 	// fact.
 	if err := s.runPipeline(rp); err != nil {
 		return cerrors.Errorf("failed to run pipeline %s: %w", pl.ID, err)
+	}
+	if hadOldRp && !forceStoppedBefore && oldRp.forceStopped.Load() {
+		// A force stop was accepted while this run was being built and marked
+		// the superseded run: the caller was told the pipeline is being force
+		// stopped, so the run that just went live must not survive it.
+		s.logger.Warn(ctx).Str(log.PipelineIDField, pl.ID).Msg("pipeline was force stopped while it was being restarted, stopping the new run")
+		_ = s.stopRunnablePipeline(ctx, rp, true)
+		return nil
 	}
 	s.logger.Info(ctx).Str(log.PipelineIDField, pl.ID).Msg("pipeline started")
 
@@ -555,6 +578,7 @@ func (s *Service) stopRunnablePipeline(ctx context.Context, rp *runnablePipeline
 		// (see the switch on rp.t.Err() below) classifies it as terminal and error
 		// recovery — once wired in — never auto-restarts a pipeline the user
 		// explicitly stopped.
+		rp.forceStopped.Store(true)
 		rp.t.Kill(cerrors.FatalError(pipeline.ErrForceStop))
 		return nil
 	}
@@ -1645,6 +1669,14 @@ func (s *Service) runPipeline(rp *runnablePipeline) error {
 				return err
 			}
 		default:
+			if rp.forceStopped.Load() && !cerrors.IsFatalError(err) {
+				// The run was force stopped while it was already failing with a
+				// transient error: the tomb kept that first error, so the fatal
+				// force-stop mark was lost. Restore it - a force-stopped
+				// pipeline must end failed-by-force-stop, whatever else is going
+				// on (recovery, a graceful shutdown, an earlier graceful stop).
+				err = cerrors.FatalError(cerrors.Errorf("%w (the run was already failing with: %v)", pipeline.ErrForceStop, err))
+			}
 			switch {
 			case cerrors.IsFatalError(err):
 				// Invariant 3/7: a fatal terminal error (including a user
@@ -1910,6 +1942,12 @@ func (s *Service) StartWithBackoff(ctx context.Context, rp *runnablePipeline) er
 	// now would resurrect a pipeline the operator was told is stopping.
 	if rp.intentionalStop.Load() {
 		return errUserStopDuringRecovery
+	}
+
+	// A force stop was accepted for this run while it was failing or waiting
+	// here: it must end failed-by-force-stop, not be resurrected.
+	if rp.forceStopped.Load() {
+		return cerrors.FatalError(pipeline.ErrForceStop)
 	}
 
 	return s.start(ctx, rp.pipeline.ID)
